@@ -61,11 +61,15 @@ Weight == [Size |-> 29, Rss |-> 23, Pss |-> 7, Shared_Clean |-> 2, Shared_Dirty 
 Pow4 == <<1, 4, 16, 64, 256>>
 PermTable == <<"r-xp", "rw-p", "r--s", "---p", "rwxp">>
 
+\* (with "THPeligible" selected the second mapping carries exactly the figures of the first: a file
+\* mapped twice the same way and equally resident)
+Scale(i, sel) == IF i = 2 /\ "THPeligible" \in sel THEN Pow4[1] ELSE Pow4[i]
+
 MkMap(i, p, sel) ==
   [ lo |-> 16 * i, hi |-> 16 * i + i,
     perms |-> PermTable[i],
     name |-> PathTable[p].name, deleted |-> PathTable[p].deleted,
-    kb |-> [l \in DOMAIN Weight |-> Weight[l] * Pow4[i]],
+    kb |-> [l \in DOMAIN Weight |-> Weight[l] * Scale(i, sel)],
     opts |-> [l \in OptLines |-> l \in (IF i % 2 = 1 THEN sel ELSE OptLines \ sel)] ]
 
 \* statm records <<size, resident, shared, text, lib, data, dt>> in pages: a kernel thread, a
